@@ -156,6 +156,20 @@ def run(ctx, rep):
                          construct=loc_of(ac), why="is_epb_use(%s) is true but a building with only that component has no ELECTRICIDAD balance" % name)
         else:
             rep.discharged(key, "%s: EPB use => the carrier is balanced" % name)
+    # A5 every AUX line that is read - also the re-created ones of a saved file - reaches the reassignment: the parser
+    # appends one component per line and takes none away (C05/P1, re-stated)
+    from .common import Report
+    sub5 = Report("C05")
+    c05.run(ctx, sub5)
+    p1 = [o for o in sub5.obligations if o.key.startswith("C05/P1/")]
+    if len(p1) < 3:
+        rep.violated("C06/A5/anchor", "the parser is analysable", why="%d C05/P1 obligations" % len(p1))
+    for o in p1:
+        k = "C06/A5/" + o.key[len("C05/P1/"):]
+        if o.status == "discharged":
+            rep.discharged(k, "declared auxiliary lines all become components: " + o.clause, nontrivial=False)
+        else:
+            rep.violated(k, "every declared AUX line is counted (none is dropped while reading)", construct=o.construct, why=o.why)
     rep.analysed = {"retains": len(rets), "single_service_maps": len(maps), "service_pushes": len(seen_services)}
     rep.floor("service-pushes", len(seen_services), 5)
 
